@@ -3111,7 +3111,8 @@ CONST_MODELS.append((re.compile(r"(^|::)Duration::ZERO$"), lambda engine: Agg("s
 
 
 def _int_const(engine, name):
-    m = re.search(r"core::num::<impl ([ui](?:8|16|32|64|128|size))>::(BITS|MAX|MIN)$", name)
+    m = re.search(r"core::num::<impl ([ui](?:8|16|32|64|128|size))>::(BITS|MAX|MIN)$", name) or \
+        re.search(r"(?:^|::)([ui](?:8|16|32|64|128|size))::(BITS|MAX|MIN)$", name)
     bits, signed = int_type(m.group(1))
     if m.group(2) == "BITS":
         return Int(bits, 32)
@@ -3120,4 +3121,51 @@ def _int_const(engine, name):
     return Int(-(1 << (bits - 1)) if signed else 0, bits, signed)
 
 
-CONST_MODELS.append((re.compile(r"core::num::<impl ([ui](?:8|16|32|64|128|size))>::(BITS|MAX|MIN)$"), _int_const))
+CONST_MODELS.append((re.compile(r"core::num::<impl ([ui](?:8|16|32|64|128|size))>::(BITS|MAX|MIN)$|(^|::)([ui](?:8|16|32|64|128|size))::(BITS|MAX|MIN)$"), _int_const))
+
+
+@model(r"^(time::)?OffsetDateTime::unix_timestamp_nanos$")
+def m_unix_ts_nanos(engine, ctx, args, callee, frame):
+    o = deref(args[0])
+    s, n = o.fields[0].v, o.fields[1].v
+    s128 = int_cast(s, 128, True)
+    n128 = int_cast(n, 128, True)
+    return int_binop("Add", int_binop("Mul", s128, Int(10 ** 9, 128, True)), n128)
+
+
+# ------------------------------------------------------------------ slicing with ranges
+
+@model(r"^<(\[.*\]|(std::vec::)?Vec<.*>|str|(std::string::)?String) as (std::ops::)?Index(Mut)?<(std::ops::)?Range(To|From|Full|Inclusive|ToInclusive)?(<usize>)?>>::index(_mut)?$")
+def m_slice_index_range(engine, ctx, args, callee, frame):
+    base = args[0]
+    rng = args[1]
+    n = m_len(engine, ctx, [base], "Vec::<T>::len", frame)
+    kind = rng.ty if isinstance(rng, Agg) else "RangeFull"
+    zero = Int(0, 64)
+    one = Int(1, 64)
+    if kind == "Range":
+        start, end = rng.fields[0].v, rng.fields[1].v
+    elif kind == "RangeTo":
+        start, end = zero, rng.fields[0].v
+    elif kind == "RangeFrom":
+        start, end = rng.fields[0].v, n
+    elif kind == "RangeToInclusive":
+        start, end = zero, int_binop("Add", rng.fields[0].v, one)
+    elif kind == "RangeInclusive":
+        start, end = rng.fields[0].v, int_binop("Add", rng.fields[1].v, one)
+    else:
+        start, end = zero, n
+    if not ctx.branch(int_binop("Le", start, end)):
+        raise Panic("slice index starts at %r but ends at %r" % (start, end), (frame.fn.name if frame else None,), kind="slice")
+    if not ctx.branch(int_binop("Le", end, n)):
+        raise Panic("range end index %r out of range for slice of length %r" % (end, n), (frame.fn.name if frame else None,), kind="slice")
+    cell = deref_cell(base)
+    length = int_binop("Sub", end, start)
+    tgt = cell.v
+    if isinstance(base, Ref) and base.window is not None:
+        start = int_binop("Add", base.window[0], start)
+    if isinstance(tgt, Bytes):
+        return Ref(Cell(Bytes(tgt.arr, int_binop("Add", tgt.off, start), length, tgt.utf8)))
+    s = ctx.concretize(start, 64, "slice start")
+    l = ctx.concretize(length, 64, "slice length")
+    return Ref(cell, (Int(s, 64), Int(l, 64)))
